@@ -12,7 +12,7 @@ TInit == /\ tid \in 1..Len(Traces) /\ l = 1 /\ bad = "none" /\ fam = "none"
          /\ conf = Traces[tid].conf
          /\ now = Traces[tid].t0 /\ pc = "init" /\ wake = Traces[tid].t0 + conf.initdelay /\ started = 0 /\ lastReset = Traces[tid].t0
          /\ out = [k |-> "ok", d |-> 0] /\ retry = 0
-         /\ pStart = 0 /\ pEnd = 0 /\ pOut = "none" /\ runs = 0 /\ rs = 0 /\ changes = 0 /\ fails = 0 /\ stopped = FALSE
+         /\ pStart = 0 /\ pEnd = 0 /\ pOut = "none" /\ pDelay = 0 /\ runs = 0 /\ rs = 0 /\ changes = 0 /\ fails = 0 /\ stopped = FALSE
 Ev(e) == l <= Len(T) /\ E.ev = e /\ E.t = now /\ l' = l + 1 /\ UNCHANGED tid
 TStart == Ev("start") /\ HeadWith(E.dur, [k |-> E.k, d |-> E.d]) /\ pc' = "run" /\ retry = E.retry
 TEnd == Ev("end") /\ End
@@ -25,7 +25,7 @@ TQuiet == Ev("quiet") /\ ~Urgent /\ UNCHANGED vars
 SilentHead == HeadWith(0, [k |-> "ok", d |-> 0]) /\ pc' \in {"poll", "idle"} /\ UNCHANGED <<tid, l>>
 Advance == /\ l <= Len(T) /\ E.t > now /\ ~Urgent
            /\ now' = (IF pc # "done" /\ wake > now /\ wake < E.t THEN wake ELSE E.t)     \* never jump over a due wake-up
-           /\ UNCHANGED <<pc, wake, started, lastReset, out, retry, pStart, pEnd, pOut, runs, rs, changes, fails, conf, stopped, tid, l>>
+           /\ UNCHANGED <<pc, wake, started, lastReset, out, retry, pStart, pEnd, pOut, pDelay, runs, rs, changes, fails, conf, stopped, tid, l>>
 AllInv == FirstRun /\ NoOverlap /\ IdleLaw /\ AfterOk /\ AfterOkSharp /\ AfterTemp /\ AfterExc /\ PermanentEndsIt
 FirstBad == IF ~FirstRun THEN "FirstRun" ELSE IF ~NoOverlap THEN "NoOverlap" ELSE IF ~IdleLaw THEN "IdleLaw" ELSE IF ~AfterOk THEN "AfterOk"
             ELSE IF ~AfterOkSharp THEN "AfterOkSharp" ELSE IF ~AfterTemp THEN "AfterTemp" ELSE IF ~AfterExc THEN "AfterExc"
